@@ -39,15 +39,21 @@ LineStep ==
              ELSE /\ lineoff' = lo2 /\ indices' = Append(indices, lo2 - 1) /\ ak' = ak + 1
                   /\ UNCHANGED <<offset, pk, pc, fault>>
   /\ UNCHANGED <<text, width, prs, ws, arr, res>>
-\* bytes[idx] = b'\n' for every index, then String::from_utf8(bytes).unwrap()
+\* bytes[idx] = b'\n' for every index, then String::from_utf8(bytes).unwrap(): one walk over the text with the running
+\* byte offset; an index that is not the offset of a one-byte character is out of range or breaks UTF-8 (fault)
+RECURSIVE PatchWalk(_, _, _, _, _, _)
+PatchWalk(t, i, b, idx, acc, hits) ==
+  IF i > Len(t) THEN [res |-> acc, hits |-> hits]
+  ELSE LET u == Utf8Len(t[i]) IN
+       IF b \in idx /\ u = 1 THEN PatchWalk(t, i + 1, b + u, idx, Append(acc, LF), hits + 1)
+       ELSE PatchWalk(t, i + 1, b + u, idx, Append(acc, t[i]), hits)
 Patch ==
   /\ pc = "para" /\ pk > Len(prs)
-  /\ LET bo == BOff(text)
-         posOf(b) == LET cnd == {i \in 1..Len(text) : bo[i] = b /\ Utf8Len(text[i]) = 1} IN IF cnd = {} THEN 0 ELSE CHOOSE i \in cnd : TRUE
-         ps == [x \in 1..Len(indices) |-> posOf(indices[x])]
-     IN IF \E x \in 1..Len(ps) : ps[x] = 0
+  /\ LET idx == {indices[x] : x \in 1..Len(indices)}
+         pw == PatchWalk(text, 1, 0, idx, <<>>, 0)
+     IN IF pw.hits # Cardinality(idx)
         THEN fault' = "fill.rs:150 index out of range / from_utf8" /\ UNCHANGED res
-        ELSE res' = [i \in 1..Len(text) |-> IF \E x \in 1..Len(ps) : ps[x] = i THEN LF ELSE text[i]] /\ UNCHANGED fault
+        ELSE res' = pw.res /\ UNCHANGED fault
   /\ pc' = "done" /\ UNCHANGED <<text, width, prs, pk, offset, lineoff, ws, arr, ak, indices>>
 Next == (\E c \in Alphabet : Type(c)) \/ (\E w \in Widths : Begin(w)) \/ ParaStart \/ LineStep \/ Patch
 Spec == Init /\ [][Next]_vars /\ WF_vars(ParaStart \/ LineStep \/ Patch)
